@@ -326,7 +326,7 @@ m("C06-r10", "C06", "libwallet/src/internal/tx.rs", "\twallet.store_tx(&format!(
 
 m("C02-r8", "C02", "libwallet/src/internal/selection.rs", "\t\t\tif coin.status == OutputStatus::Locked\n\t\t\t\t|| coin.status == OutputStatus::Spent\n\t\t\t\t|| coin.status == OutputStatus::Reverted\n\t\t\t{", "\t\t\tif coin.status == OutputStatus::Spent || coin.status == OutputStatus::Reverted {", "C02.R8")
 
-m("C07-r6", "C07", "impls/src/backends/lmdb.rs", "\t\t\tlet deriv_key = to_key(DERIV_PREFIX, &mut parent_key_id.to_bytes().to_vec());\n\t\t\tmatch batch.get_ser(&deriv_key, None)? {", "\t\t\tlet deriv_key = to_key(DERIV_PREFIX, &mut self.parent_key_id.to_bytes().to_vec());\n\t\t\tmatch batch.get_ser(&deriv_key, None)? {", "C07.R6")
+m("C07-r6", "C07", "impls/src/backends/lmdb.rs", "\t\tlet mut deriv_idx = {\n\t\t\tlet batch = self.db.batch()?;\n\t\t\tlet deriv_key = to_key(DERIV_PREFIX, &mut parent_key_id.to_bytes().to_vec());", "\t\tlet mut deriv_idx = {\n\t\t\tlet batch = self.db.batch()?;\n\t\t\tlet deriv_key = to_key(DERIV_PREFIX, &mut self.parent_key_id.to_bytes().to_vec());", "C07.R6")
 m("C03-r9", "C03", "libwallet/src/internal/tx.rs", "\t\tif t.tx_type == TxLogEntryType::TxSent && !is_invoiced {\n\t\t\ttx = Some(t);\n\t\t\tbreak;\n\t\t}\n\t\tif t.tx_type == TxLogEntryType::TxReceived && is_invoiced {", "\t\tif (t.tx_type == TxLogEntryType::TxReceived) == is_invoiced {", "C03.R9")
 
 
